@@ -169,7 +169,7 @@ def num_machines_of(spec):
 
 def gen_instance(rng: random.Random, *, max_jobs=5, max_machines=4, max_ops=4,
                  allow_empty_jobs=False, flexible=None, zero=None, big=False,
-                 min_jobs=1, min_ops=None, regular=False, recirculation=True):
+                 min_jobs=1, min_ops=None, regular=False, recirculation=True, huge=False):
     """Structured random instance (see DESIGN 3.3)."""
     nj = rng.randint(min_jobs, max_jobs)
     nm = rng.randint(1, max_machines)
@@ -200,6 +200,8 @@ def gen_instance(rng: random.Random, *, max_jobs=5, max_machines=4, max_ops=4,
             r = rng.random()
             if zero and r < 0.25:
                 d = 0
+            elif huge and r > 0.93:
+                d = (1 << 24) + rng.randint(-3, 3)      # beyond float32's exact integer range
             elif big and r > 0.9:
                 d = rng.randint(100, 10000)
             else:
